@@ -46,6 +46,9 @@ RUN_PROFILES = {
     "observers": dict(observers=0.35, imm=0.0),
     "observers_loops": dict(observers=0.35, imm=0.0, w={"count": 3, "while": 2, "cond": 2}),
     "listeners": dict(listeners=0.4, imm=0.0),
+    # UUID mode: the log entries must name the identifier the callbacks see, also for calls in loops
+    "observers_uuid_loops": dict(observers=0.35, imm=0.0, test_ids=False, max_tasks=4,
+                                 w={"count": 4, "while": 1, "call": 5, "service": 3, "cond": 1}),
     # which exit of the production task fires last: tasks ending in parallel loops, called last
     "observers_parloop": dict(observers=0.35, imm=0.1, parloop_shapes="all", max_block=2, max_tasks=4,
                               w={"parloop": 4, "call": 5, "service": 3, "cond": 1, "parallel": 1}),
@@ -55,16 +58,16 @@ PROPS = {
     "C01": dict(kind="run", proj="P_C01", mon="mon_C01", property_files=("Refinement", "RefinementTransfer"),
                 profiles=["default", "imm", "sync", "loops", "parallel", "parloop", "react", "react_loops"],
                 quick=240, thorough=6000, finding_profiles=["react_all", "parloop_all"]),
-    "C02": dict(kind="run", proj="P_seq", mon="mon_true", property_files=("C02net", "Refinement", "RefinementTransfer"),
+    "C02": dict(kind="run", proj="P_seq", mon="mon_C02seq", property_files=("C02net", "C02seq", "Refinement", "RefinementTransfer"),
                 profiles=["blocks", "default", "imm", "loops", "react_loops"], quick=240, thorough=6000,
                 finding_profiles=["parloop_all", "parloop_mix"]),
-    "C03": dict(kind="run", proj="P_set", mon="mon_true", property_files=("Refinement", "RefinementTransfer"),
+    "C03": dict(kind="run", proj="P_set", mon="mon_C02seq", property_files=("C02seq", "Refinement", "RefinementTransfer"),
                 profiles=["parallel", "parloop", "react"], quick=240, thorough=6000,
                 finding_profiles=["parloop_all"]),
     "C04": dict(kind="run", proj="P_C04", mon="mon_C04ctx", property_files=("C04ctx", "Refinement", "RefinementTransfer"),
                 profiles=["cond", "default", "react_loops"], quick=240, thorough=6000,
                 finding_profiles=["parloop_all"]),
-    "C05": dict(kind="run", proj="P_seq", mon="mon_true", property_files=("Refinement", "RefinementTransfer"),
+    "C05": dict(kind="run", proj="P_seq", mon="mon_C02seq", property_files=("C02seq", "Refinement", "RefinementTransfer"),
                 profiles=["loops", "react_loops"], quick=240, thorough=6000,
                 finding_profiles=["parloop_all", "parloop_mix"]),
     "C06": dict(kind="run", proj="P_set", mon="mon_true",
@@ -82,7 +85,7 @@ PROPS = {
                 profiles=["params", "params_indexed", "params_imm", "hostile_append", "hostile_clear", "hostile_replace"],
                 quick=240, thorough=6000, finding_profiles=["parloop_all"]),
     "C17": dict(kind="run", proj="P_C17", mon="mon_C17", property_files=("C20net", "C17obs", "RefinementTransfer"), extra_kinds=("obs",), py_monitor="petri_net_notices",
-                profiles=["observers", "observers_loops"], quick=200, thorough=5000, finding_profiles=["observers_parloop"]),
+                profiles=["observers", "observers_loops", "observers_uuid_loops"], quick=200, thorough=5000, finding_profiles=["observers_parloop"]),
     "C20": dict(kind="run", proj="P_C20", mon="mon_C20", property_files=("C20net", "C20reg", "RefinementTransfer"), extra_kinds=("reg",),
                 profiles=["listeners"], quick=200, thorough=5000, finding_profiles=["listeners_imm"]),
     # C13: expressions in isolation (kind expr) + guards evaluated repeatedly in running orders
